@@ -13,6 +13,11 @@ func init() {
 	register(
 		&Rule{ID: "KI-WRITERS", Doc: "the builder's / token's configuration (root key id, random source, root key) is written only by constructors and option appliers; Build does not reset it", Run: ruleKIWriters, Min: 4},
 		&Rule{ID: "OWN-CLOSURE", Doc: "option closures store only values they create themselves or scalars, never a captured mutable object (which every configured instance would share)", Run: ruleOwnClosure, Min: 3},
+		&Rule{ID: "LM-JOIN", Doc: "evaluation really ends when it is over: the join producer polls its stop channel at every step, Apply returns only after the producer has exited, the worker never commits after the deadline and always reports, and Run waits for it", Run: ruleLMJoin, Min: 5},
+		&Rule{ID: "LM-QUERY", Doc: "every application of a rule on behalf of the authorizer is bounded by the world's limits and its error reaches the caller", Run: ruleLMQuery, Min: 2},
+		&Rule{ID: "BLD-PURE", Doc: "building a token or a block does not modify the builder it is built from", Run: ruleBldPure, Min: 2},
+		&Rule{ID: "PN-STDOUT", Doc: "library code does not write to standard output / standard error", Run: rulePNStdout, Min: 1},
+		&Rule{ID: "EX-DATECONV", Doc: "signed seconds (time.Time.Unix) become an unsigned date only after a range test, and the encoder refuses wrapped dates", Run: ruleEXDateConv, Min: 2},
 		&Rule{ID: "SN-ALL", Doc: "saving and loading a snapshot treat every fact, rule, check, policy and query: no element is skipped by a continue or a conditional add", Run: ruleSNAll, Min: 8},
 		&Rule{ID: "SN-FIELDS", Doc: "the authorizer snapshot writes every field of pb.AuthorizerPolicies and the loader reads every field; written version = accepted version", Run: ruleSNFields, Min: 12},
 		&Rule{ID: "SN-KIND", Doc: "policy kinds are mapped totally, inversely and name-consistently when saving and loading", Run: ruleSNKind, Min: 4},
@@ -209,30 +214,30 @@ func ruleSNDirty(p *Prog, r *Reporter) {
 			if !ok || !isCallTo(&cv.Call, "datalog.World.Run") || p.D(cv.Call.Args[0]) != m.Params[0].Name()+".world" {
 				continue
 			}
-			// a store dirty=true on the success side
-			tests := nilTests(cv)
+			// dirty = true before the world is touched by this evaluation: the store dominates the Run call
+			// and, in the same method, every AddFact / AddRule on the authority-level world (token content)
 			okD := false
+			why := "the authority-level world is run without the authorizer having been marked as evaluated first: when the run fails (limit, invalid rule, expression error) the world already holds token content and derived facts, and a later snapshot saves them"
+			W := m.Params[0].Name() + ".world"
 			for _, fs := range fieldStoresVia(m, m.Params[0]) {
 				if fs.field != "dirty" {
 					continue
 				}
-				if k, isC := fs.st.Val.(*ssa.Const); isC && k.Value != nil && k.Value.String() == "true" {
-					if len(tests) > 0 && (tests[0].isNil == fs.st.Block() || tests[0].isNil.Dominates(fs.st.Block())) {
-						// every return after the successful Run (error returns included) has passed the store
-						okD = true
-						for _, ret := range returnsOf(m) {
-							rb := ret.Block()
-							if rb == fs.st.Block() {
-								continue
-							}
-							if reachAvoiding(tests[0].isNil, rb, blockSet{fs.st.Block(): true}) {
-								okD = false
-							}
+				k, isC := fs.st.Val.(*ssa.Const)
+				if !isC || k.Value == nil || k.Value.String() != "true" || !instrDominates(fs.st, cv) {
+					continue
+				}
+				okD = true
+				for _, c2 := range callsIn(m) {
+					if (isCallTo(c2.Common(), "datalog.World.AddFact") || isCallTo(c2.Common(), "datalog.World.AddRule")) && p.D(c2.Common().Args[0]) == W {
+						if !instrDominates(fs.st, c2) {
+							okD = false
+							why = "token content is loaded into the authority-level world before the authorizer is marked as evaluated: an error while loading or running leaves it savable with that content"
 						}
 					}
 				}
 			}
-			r.Check(okD, p.instrPos(cv), p.FuncName(m), "dirty after Run", "the authorizer is marked dirty right after a successful Run of its world", "the authority-level world is run without marking the authorizer dirty: a later snapshot contains derived facts")
+			r.Check(okD, p.instrPos(cv), p.FuncName(m), "dirty before Run", "the authorizer is marked as evaluated before this call loads or derives anything into its world", why)
 		}
 	}
 }
@@ -419,8 +424,8 @@ func ruleDTSources(p *Prog, r *Reporter) {
 					switch {
 					case !x.Blocking && recvs == 1 && sends == 0:
 						r.OK(p.instrPos(x), name, "select poll", "non-blocking cancellation poll")
-					case x.Blocking && recvs == 2 && sends == 0 && fn.Name() == "Run":
-						r.OK(p.instrPos(x), name, "select deadline|result", "the documented race between the deadline and the worker's result")
+					case x.Blocking && recvs == 2 && sends == 0 && selectHasErrorOnlyCase(x):
+						r.OK(p.instrPos(x), name, "select deadline|result", "race between cancellation / the deadline and a result: the cancellation case only ever ends in the limit error")
 					case x.Blocking && recvs == 1 && sends == 1:
 						r.OK(p.instrPos(x), name, "select send|stop", "producer send with stop alternative: the choice only matters after the consumer has returned")
 					default:
@@ -496,6 +501,13 @@ func ruleFSDedup(p *Prog, r *Reporter) {
 				continue
 			}
 			if bi, isB := cv.Call.Value.(*ssa.Builtin); isB && bi.Name() == "append" && types.Identical(cv.Type(), fsT) {
+				// copying a whole fact set into an empty slice keeps it a set
+				if len(cv.Call.Args) == 2 && types.Identical(unwrap(cv.Call.Args[1]).Type(), fsT) {
+					if k, isK := unwrap(cv.Call.Args[0]).(*ssa.Const); isK && k.IsNil() {
+						r.OK(p.instrPos(cv), p.FuncName(fn), "copy of a FactSet", "a whole fact set appended to nil: a copy")
+						continue
+					}
+				}
 				r.Bad(p.instrPos(cv), p.FuncName(fn), "append to FactSet", "facts are appended to a fact set outside FactSet.Insert: duplicates are not eliminated")
 			}
 		}
@@ -525,9 +537,13 @@ func ruleENApplyAll(p *Prog, r *Reporter) {
 			continue
 		}
 		var apply *ssa.Call
+		var aRule, aFacts, aOut ssa.Value
+		ai := p.applyImpl()
 		for _, c := range callsIn(body) {
-			if cv, ok := c.(*ssa.Call); ok && isCallTo(&cv.Call, "datalog.Rule.Apply") && rules.inside(cv.Block()) {
-				apply = cv
+			if cv, ok := c.(*ssa.Call); ok && ai != nil && rules.inside(cv.Block()) {
+				if ru, fa, ou, isA := ai.applyCall(cv); isA {
+					apply, aRule, aFacts, aOut = cv, ru, fa, ou
+				}
 			}
 		}
 		if apply == nil {
@@ -542,7 +558,7 @@ func ruleENApplyAll(p *Prog, r *Reporter) {
 			}
 		}
 		r.Check(okEvery, p.instrPos(apply), name, "no rule skipped", "every iteration of the rule loop applies its rule before moving on", "a rule can be skipped in an iteration (continue / conditional Apply): facts it derives from newly added facts are never produced")
-		okArgs := rules.isElem(apply.Call.Args[0]) && strings.HasSuffix(p.D(apply.Call.Args[1]), ".facts")
+		okArgs := aRule != nil && aFacts != nil && rules.isElem(aRule) && strings.HasSuffix(p.D(aFacts), ".facts")
 		r.Check(okArgs, p.instrPos(apply), name, "Apply(rule, facts)", "each rule is applied to the world's current facts", "Apply is not called with the current range element and the world's facts")
 		// exits of the rule loop other than exhaustion must end the worker (send error / cancelled)
 		okExit := true
@@ -570,7 +586,7 @@ func ruleENApplyAll(p *Prog, r *Reporter) {
 		okMerge := insAll != nil && (rules.doneBB == insAll.Block() || rules.doneBB.Dominates(insAll.Block()))
 		if okMerge {
 			// the inserted slice is what Apply wrote into
-			okMerge = dependsOn(insAll.Call.Args[1], func(x ssa.Value) bool { return x == unwrap(apply.Call.Args[2]) || x == apply.Call.Args[2] })
+			okMerge = aOut != nil && dependsOn(insAll.Call.Args[1], func(x ssa.Value) bool { return x == unwrap(aOut) || x == aOut })
 		}
 		r.Check(okMerge, p.Pos(body.Pos()), name, "merge new facts", "all facts derived in the iteration are inserted into the world after every rule ran", "the facts derived by Apply are not (all) merged into the world's facts after the rule loop")
 	}
@@ -578,37 +594,28 @@ func ruleENApplyAll(p *Prog, r *Reporter) {
 
 func ruleENConsume(p *Prog, r *Reporter) {
 	globalP = p
-	apply := p.Func("datalog", "Rule", "Apply")
-	if apply == nil {
+	ai := p.applyImpl()
+	if ai == nil {
 		r.Dunno("?", "datalog.Rule.Apply", "method", "not found")
 		return
 	}
+	apply := ai.fn
 	name := p.FuncName(apply)
-	// the receive loop over the combinations channel
-	var lp *loop
-	var recv *ssa.UnOp
-	for _, l := range naturalLoops(apply) {
-		for _, in := range l.header.Instrs {
-			if u, ok := in.(*ssa.UnOp); ok && u.Op == token.ARROW && u.CommaOk {
-				lp, recv = l, u
-			}
-		}
-	}
-	if lp == nil {
-		r.Bad(p.Pos(apply.Pos()), name, "receive loop", "Apply does not range over the channel of matched combinations")
+	R := ai.rule.Name()
+	// the receive loop over the combinations channel (range over the channel, or a select with a receive case)
+	rl := p.receiveLoop(apply)
+	if rl == nil {
+		r.Bad(p.Pos(apply.Pos()), name, "receive loop", "Apply does not consume the channel of matched combinations in a loop")
 		return
 	}
-	if c, ok := recv.X.(*ssa.Call); !ok || !isCallTo(&c.Call, "datalog.combine") {
-		r.Bad(p.instrPos(recv), name, "receive loop", "the loop does not consume the result of combine()")
-	} else {
-		args := c.Call.Args
-		okArgs := p.D(args[1]) == apply.Params[0].Name()+".Body" && p.D(args[2]) == apply.Params[0].Name()+".Expressions" && args[3] == ssa.Value(apply.Params[1])
-		r.Check(okArgs, p.instrPos(c), name, "combine(body, expressions, facts)", "joins the rule's whole body and all its expressions over the given facts", "combine is not called with the rule's Body, Expressions and the facts parameter")
-	}
+	lp := rl.lp
+	args := rl.comb.Call.Args
+	okArgs := p.D(args[1]) == R+".Body" && p.D(args[2]) == R+".Expressions" && args[3] == ssa.Value(ai.facts)
+	r.Check(okArgs, p.instrPos(rl.comb), name, "combine(body, expressions, facts)", "joins the rule's whole body and all its expressions over the given facts", "combine is not called with the rule's Body, Expressions and the facts parameter")
 	// every back edge passes an Insert into newFacts
 	var ins *ssa.Call
 	for _, c := range callsIn(apply) {
-		if cv, ok := c.(*ssa.Call); ok && isCallTo(&cv.Call, "datalog.FactSet.Insert") && cv.Call.Args[0] == ssa.Value(apply.Params[2]) {
+		if cv, ok := c.(*ssa.Call); ok && isCallTo(&cv.Call, "datalog.FactSet.Insert") && cv.Call.Args[0] == ssa.Value(ai.newFacts) {
 			ins = cv
 		}
 	}
@@ -620,23 +627,27 @@ func ruleENConsume(p *Prog, r *Reporter) {
 			}
 		}
 	}
-	r.Check(okIns, p.instrPos(recv), name, "insert per combination", "every received combination that does not end Apply with an error inserts a head instance into newFacts", "a received combination can be skipped without inserting the derived fact (continue / conditional insert)")
-	// early exits only with errors
-	okExit := true
+	r.Check(okIns, p.instrPos(rl.recv), name, "insert per combination", "every received combination that does not end Apply with an error inserts a head instance into newFacts", "a received combination can be skipped without inserting the derived fact (continue / conditional insert)")
+	// the loop ends with success only when the channel is closed; every other exit is an error
+	closed := blockSet{}
+	for _, b := range rl.closed {
+		closed[b] = true
+	}
+	okExit := len(rl.closed) > 0
 	for _, ex := range lp.exits() {
-		if ex.from == lp.header {
-			continue // channel closed
+		if closed[ex.to] {
+			continue
 		}
 		if !onlyErrorReturnsFrom(ex.to) {
 			okExit = false
 		}
 	}
-	r.Check(okExit, p.instrPos(recv), name, "no silent early exit", "the receive loop ends early only with an error", "Apply can stop consuming combinations and return success (break / return nil): derivable facts are lost")
+	r.Check(okExit, p.instrPos(rl.recv), name, "no silent early exit", "the receive loop ends with success only when the producer has closed the channel; every other exit returns an error", "Apply can stop consuming combinations and return success (break / return nil): derivable facts are lost")
 	// the inserted predicate is the rule head's clone with matched values
 	if ins != nil {
 		okHead := dependsOn(ins.Call.Args[1], func(x ssa.Value) bool {
 			c, ok := x.(*ssa.Call)
-			return ok && isCallTo(&c.Call, "datalog.Predicate.Clone") && p.D(c.Call.Args[0]) == apply.Params[0].Name()+".Head"
+			return ok && isCallTo(&c.Call, "datalog.Predicate.Clone") && p.D(c.Call.Args[0]) == R+".Head"
 		})
 		r.Check(okHead, p.instrPos(ins), name, "head instance", "the inserted fact is built from a clone of the rule's head", "the inserted fact is not an instance of the rule's head")
 	}
@@ -931,13 +942,14 @@ func ruleENExits(p *Prog, r *Reporter) {
 
 func ruleENHead(p *Prog, r *Reporter) {
 	globalP = p
-	apply := p.Func("datalog", "Rule", "Apply")
-	if apply == nil {
+	ai := p.applyImpl()
+	if ai == nil {
 		r.Dunno("?", "datalog.Rule.Apply", "method", "not found")
 		return
 	}
+	apply := ai.fn
 	name := p.FuncName(apply)
-	R := apply.Params[0].Name()
+	R := ai.rule.Name()
 	head := "datalog.Predicate.Clone(" + R + ".Head).Terms"
 	var rl *rangeLoop
 	for _, l := range rangeLoops(apply) {
@@ -1447,4 +1459,682 @@ func ruleSNAll(p *Prog, r *Reporter) {
 func sameRecv(a, b *ssa.Function) bool {
 	ra, rb := a.Signature.Recv(), b.Signature.Recv()
 	return ra != nil && rb != nil && types.Identical(ra.Type(), rb.Type())
+}
+
+// ---- the function that implements Rule.Apply
+
+// applyInfo describes the function holding the join's receive loop: Rule.Apply itself, or the
+// unexported method it forwards its parameters to (Apply(facts, new, syms) -> apply(cancel, facts, new, syms)).
+type applyInfo struct {
+	api  *ssa.Function // the exported Rule.Apply
+	fn   *ssa.Function // the implementation
+	rule *ssa.Parameter
+	// parameter of fn holding the facts / the output set / the symbols
+	facts, newFacts, syms *ssa.Parameter
+}
+
+func (p *Prog) applyImpl() *applyInfo {
+	api := p.Func("datalog", "Rule", "Apply")
+	if api == nil || len(api.Params) < 4 {
+		return nil
+	}
+	info := &applyInfo{api: api, fn: api, rule: api.Params[0], facts: api.Params[1], newFacts: api.Params[2], syms: api.Params[3]}
+	for depth := 0; depth < 3; depth++ {
+		hasCombine := false
+		var fwd *ssa.Call
+		for _, c := range callsIn(info.fn) {
+			if isCallTo(c.Common(), "datalog.combine") {
+				hasCombine = true
+			}
+			if cv, ok := c.(*ssa.Call); ok {
+				if f := cv.Call.StaticCallee(); f != nil && p.pkgShort(f) == "datalog" && f != info.fn && f.Blocks != nil {
+					passes := 0
+					for _, a := range cv.Call.Args {
+						if a == ssa.Value(info.facts) || a == ssa.Value(info.newFacts) || a == ssa.Value(info.rule) {
+							passes++
+						}
+					}
+					if passes == 3 {
+						fwd = cv
+					}
+				}
+			}
+		}
+		if hasCombine || fwd == nil {
+			return info
+		}
+		callee := fwd.Call.StaticCallee()
+		next := &applyInfo{api: api, fn: callee}
+		for i, a := range fwd.Call.Args {
+			if i >= len(callee.Params) {
+				break
+			}
+			switch a {
+			case ssa.Value(info.rule):
+				next.rule = callee.Params[i]
+			case ssa.Value(info.facts):
+				next.facts = callee.Params[i]
+			case ssa.Value(info.newFacts):
+				next.newFacts = callee.Params[i]
+			case ssa.Value(info.syms):
+				next.syms = callee.Params[i]
+			}
+		}
+		if next.rule == nil || next.facts == nil || next.newFacts == nil {
+			return info
+		}
+		info = next
+	}
+	return info
+}
+
+// applyCall: is c a call that applies a rule (through the exported method or its implementation)?
+// Returns the rule, facts and output arguments.
+func (ai *applyInfo) applyCall(c ssa.CallInstruction) (rule, facts, out ssa.Value, ok bool) {
+	f := c.Common().StaticCallee()
+	if f == nil {
+		return nil, nil, nil, false
+	}
+	args := c.Common().Args
+	pick := func(fn *ssa.Function, prm *ssa.Parameter) ssa.Value {
+		for i, q := range fn.Params {
+			if q == prm && i < len(args) {
+				return args[i]
+			}
+		}
+		return nil
+	}
+	switch f {
+	case ai.api:
+		return args[0], args[1], args[2], true
+	case ai.fn:
+		return pick(f, ai.rule), pick(f, ai.facts), pick(f, ai.newFacts), true
+	}
+	return nil, nil, nil, false
+}
+
+// receiveLoop finds the loop of fn that consumes the channel returned by combine: `for x := range ch`
+// or `for { select { ... case x, ok := <-ch: ... } }`. It returns the loop, the instruction that receives,
+// the blocks entered when the channel is closed, and (select form) the blocks of the other cases.
+type recvLoop struct {
+	lp     *loop
+	recv   ssa.Instruction
+	closed []*ssa.BasicBlock // successors taken when the channel is closed
+	others []*ssa.BasicBlock // select form: bodies of the other (cancellation) cases
+	comb   *ssa.Call         // the combine call
+}
+
+func (p *Prog) receiveLoop(fn *ssa.Function) *recvLoop {
+	isComb := func(v ssa.Value) *ssa.Call {
+		for i := 0; i < 4 && v != nil; i++ {
+			if c, ok := v.(*ssa.Call); ok && isCallTo(&c.Call, "datalog.combine") {
+				return c
+			}
+			// through a spilled local
+			if u, ok := v.(*ssa.UnOp); ok && u.Op == token.MUL {
+				if a, isA := u.X.(*ssa.Alloc); isA {
+					sts := storesInto(a)
+					if len(sts) == 1 {
+						v = sts[0].Val
+						continue
+					}
+				}
+			}
+			return nil
+		}
+		return nil
+	}
+	for _, l := range naturalLoops(fn) {
+		for b := range l.body {
+			for _, in := range b.Instrs {
+				switch x := in.(type) {
+				case *ssa.UnOp:
+					if x.Op == token.ARROW && x.CommaOk {
+						if c := isComb(x.X); c != nil {
+							rl := &recvLoop{lp: l, recv: x, comb: c}
+							if iff := blockIf(b); iff != nil {
+								_, _, onF := condOf(iff)
+								rl.closed = append(rl.closed, onF)
+							}
+							return rl
+						}
+					}
+				case *ssa.Select:
+					for si, st := range x.States {
+						if st.Dir != types.RecvOnly {
+							continue
+						}
+						c := isComb(st.Chan)
+						if c == nil {
+							continue
+						}
+						rl := &recvLoop{lp: l, recv: x, comb: c}
+						// recvOk extract (#1) controls the closed exit; index extract (#0) == si selects the case
+						for _, ref := range *x.Referrers() {
+							ex, isE := ref.(*ssa.Extract)
+							if !isE {
+								continue
+							}
+							if ex.Index == 1 {
+								for _, r2 := range *ex.Referrers() {
+									if iff, isIf := r2.(*ssa.If); isIf {
+										rl.closed = append(rl.closed, iff.Block().Succs[1])
+									}
+								}
+							}
+							if ex.Index == 0 {
+								for _, r2 := range *ex.Referrers() {
+									bo, isB := r2.(*ssa.BinOp)
+									if !isB || bo.Op != token.EQL {
+										continue
+									}
+									k, isK := constInt(bo.Y)
+									if !isK || int(k) == si {
+										continue
+									}
+									for _, r3 := range *bo.Referrers() {
+										if iff, isIf := r3.(*ssa.If); isIf {
+											rl.others = append(rl.others, iff.Block().Succs[0])
+										}
+									}
+								}
+							}
+						}
+						return rl
+					}
+				}
+			}
+		}
+	}
+	return nil
+}
+
+// selectCaseBlocks: the block entered for each case index of a select.
+func selectCaseBlocks(sel *ssa.Select) map[int]*ssa.BasicBlock {
+	out := map[int]*ssa.BasicBlock{}
+	if sel.Referrers() == nil {
+		return out
+	}
+	for _, ref := range *sel.Referrers() {
+		ex, ok := ref.(*ssa.Extract)
+		if !ok || ex.Index != 0 || ex.Referrers() == nil {
+			continue
+		}
+		for _, r2 := range *ex.Referrers() {
+			bo, isB := r2.(*ssa.BinOp)
+			if !isB || bo.Op != token.EQL || bo.Referrers() == nil {
+				continue
+			}
+			k, isK := constInt(bo.Y)
+			if !isK {
+				continue
+			}
+			for _, r3 := range *bo.Referrers() {
+				if iff, isIf := r3.(*ssa.If); isIf {
+					out[int(k)] = iff.Block().Succs[0]
+				}
+			}
+		}
+	}
+	return out
+}
+
+// selectHasErrorOnlyCase: one receive case of the select can only lead to error returns.
+func selectHasErrorOnlyCase(sel *ssa.Select) bool {
+	for k, b := range selectCaseBlocks(sel) {
+		if k >= 0 && k < len(sel.States) && sel.States[k].Dir == types.RecvOnly && onlyErrorReturnsFrom(b) {
+			return true
+		}
+	}
+	return false
+}
+
+// ---- LM-JOIN
+
+func ruleLMJoin(p *Prog, r *Reporter) {
+	globalP = p
+	// (a) the producer polls stop in every cycle of its search
+	body := combineBody(p)
+	if body == nil {
+		r.Dunno("?", "datalog.combine", "goroutine", "not found")
+	} else {
+		name := p.FuncName(body)
+		// stop polls: non-blocking selects receiving from the stop parameter (a free variable of the goroutine or a parameter)
+		polls := blockSet{}
+		for _, b := range body.Blocks {
+			for _, in := range b.Instrs {
+				sel, ok := in.(*ssa.Select)
+				if !ok {
+					continue
+				}
+				for k, st := range sel.States {
+					if st.Dir != types.RecvOnly || !isStopChan(p, st.Chan) {
+						continue
+					}
+					// the poll (non-blocking) or a send-or-stop select (blocking): either way the stop case must end the goroutine
+					if cb := selectCaseBlocks(sel)[k]; cb != nil && endsFunction(cb) {
+						polls[b] = true
+					}
+				}
+			}
+		}
+		// every cycle passes a poll: removing the poll blocks leaves no cycle
+		// (loops over a slice are bounded by its length: their back edges are not cycles of the search)
+		cut := map[edge]bool{}
+		for _, rl := range rangeLoops(body) {
+			for _, l := range rl.latches {
+				cut[edge{l, rl.header}] = true
+			}
+		}
+		for _, cl := range countedLoops(body) {
+			for _, l := range cl.latches {
+				cut[edge{l, cl.header}] = true
+			}
+		}
+		cyc := cycleAvoiding(body, polls, cut)
+		cycD := ""
+		if cyc != nil {
+			cycD = fmt.Sprintf(" (a cycle through blocks %d and %d passes no poll)", cyc[0].Index, cyc[1].Index)
+		}
+		_ = cycD
+		r.Check(len(polls) > 0 && cyc == nil, p.Pos(body.Pos()), name, "producer polls stop", "every cycle of the search passes a receive from the stop channel that ends the goroutine", "the producer goroutine can loop without looking at its stop channel (it does so only when it has something to send): after the consumer has returned it keeps enumerating, reading the facts and reading and extending the symbol table concurrently with the caller")
+	}
+	// (b) Apply waits for the producer: after closing stop, the deferred function drains the channel
+	ai := p.applyImpl()
+	if ai == nil {
+		r.Dunno("?", "datalog.Rule.Apply", "method", "not found")
+	} else {
+		fn := ai.fn
+		okDrain := false
+		for _, b := range fn.Blocks {
+			for _, in := range b.Instrs {
+				d, ok := in.(*ssa.Defer)
+				if !ok {
+					continue
+				}
+				var callee *ssa.Function
+				switch v := d.Call.Value.(type) {
+				case *ssa.MakeClosure:
+					callee, _ = v.Fn.(*ssa.Function)
+				case *ssa.Function:
+					callee = v
+				}
+				if callee == nil {
+					continue
+				}
+				// a receive loop on a channel that ends only when the channel is closed
+				for _, l := range naturalLoops(callee) {
+					for bb := range l.body {
+						for _, in2 := range bb.Instrs {
+							if u, isU := in2.(*ssa.UnOp); isU && u.Op == token.ARROW && u.CommaOk {
+								okDrain = true
+							}
+						}
+					}
+				}
+			}
+		}
+		r.Check(okDrain, p.Pos(fn.Pos()), p.FuncName(fn), "Apply waits for the producer", "a deferred function closes stop and drains the combinations channel until the producer closes it", "Apply returns while the goroutine it started may still be running (it closes stop, or not even that, but does not wait): the producer keeps using the fact set and the symbol table after Apply - and the evaluation - have returned")
+	}
+	// (c)-(e) Run and its worker
+	run := p.Func("datalog", "World", "Run")
+	if run == nil {
+		r.Dunno("?", "datalog.World.Run", "method", "not found")
+		return
+	}
+	name := p.FuncName(run)
+	// the result channel
+	for _, b := range run.Blocks {
+		for _, in := range b.Instrs {
+			sel, ok := in.(*ssa.Select)
+			if !ok || !sel.Blocking {
+				continue
+			}
+			cases := selectCaseBlocks(sel)
+			for k, st := range sel.States {
+				if st.Dir != types.RecvOnly {
+					continue
+				}
+				if c, isC := unwrap(st.Chan).(*ssa.Call); isC && c.Call.IsInvoke() && c.Call.Method.Name() == "Done" {
+					// the deadline case: must receive the worker's result before returning
+					cb := cases[k]
+					waits := false
+					if cb != nil {
+						for _, in2 := range cb.Instrs {
+							if u, isU := in2.(*ssa.UnOp); isU && u.Op == token.ARROW {
+								if _, isMk := unwrap(u.X).(*ssa.MakeChan); isMk {
+									waits = true
+								}
+							}
+						}
+					}
+					r.Check(waits, p.instrPos(sel), name, "Run waits for its worker", "on the deadline Run receives the worker's result before it returns", "Run returns the timeout verdict while its worker goroutine is still evaluating: the worker goes on applying rules and then inserts the derived facts into the world the caller already got back (data race, facts appearing after the error)")
+				}
+			}
+		}
+	}
+	for _, w := range withClosures(run)[1:] {
+		wn := p.FuncName(w)
+		// every exit of the worker has sent a result
+		okSend := true
+		for _, ret := range returnsOf(w) {
+			sent := false
+			for _, in := range ret.Block().Instrs {
+				if _, isS := in.(*ssa.Send); isS {
+					sent = true
+				}
+			}
+			if !sent {
+				okSend = false
+			}
+		}
+		r.Check(okSend, p.Pos(w.Pos()), wn, "worker always reports", "every way out of the worker sends its result first", "the worker can end without sending a result (silent return on cancellation): a Run that waits for it would block, one that does not cannot know when the world stops changing")
+		// no commit after the deadline: InsertAll is reached only under ctx.Err() == nil
+		for _, c := range callsIn(w) {
+			cv, ok := c.(*ssa.Call)
+			if !ok || !isCallTo(&cv.Call, "datalog.FactSet.InsertAll") {
+				continue
+			}
+			okG := false
+			for _, g := range guardsOf(cv.Block()) {
+				bo, isB := g.cond.(*ssa.BinOp)
+				if !isB || !isNilConst(bo.Y) {
+					continue
+				}
+				if ec, isC := unwrap(bo.X).(*ssa.Call); isC && ec.Call.IsInvoke() && ec.Call.Method.Name() == "Err" && ((bo.Op == token.NEQ && !g.val) || (bo.Op == token.EQL && g.val)) {
+					okG = true
+				}
+			}
+			r.Check(okG, p.instrPos(cv), wn, "no commit after the deadline", "derived facts are merged only if the deadline has not passed", "the worker merges the derived facts without testing the deadline: a rule application that finishes after the deadline still changes the world")
+		}
+		// the deadline reaches the join: the rule is applied with the context's Done channel
+		okCtx := false
+		for _, c := range callsIn(w) {
+			if ai != nil {
+				if _, _, _, isA := ai.applyCall(c); isA {
+					for _, a := range c.Common().Args {
+						if dc, isC := unwrap(a).(*ssa.Call); isC && dc.Call.IsInvoke() && dc.Call.Method.Name() == "Done" {
+							okCtx = true
+						}
+					}
+				}
+			}
+		}
+		r.Check(okCtx, p.Pos(w.Pos()), wn, "deadline reaches the join", "rules are applied with the deadline's Done channel", "the join is not told about the deadline: a single long rule application runs to completion however long it takes")
+	}
+}
+
+func isStopChan(p *Prog, v ssa.Value) bool {
+	v = unwrap(v)
+	if u, ok := v.(*ssa.UnOp); ok && u.Op == token.MUL {
+		v = u.X
+	}
+	switch x := v.(type) {
+	case *ssa.Parameter:
+		return strings.Contains(x.Type().String(), "chan struct{}")
+	case *ssa.FreeVar:
+		return strings.Contains(x.Type().String(), "chan struct{}")
+	}
+	return false
+}
+
+// endsFunction: every path from b returns (no way back into a loop).
+func endsFunction(b *ssa.BasicBlock) bool {
+	seen := blockSet{}
+	var rec func(x *ssa.BasicBlock) bool
+	rec = func(x *ssa.BasicBlock) bool {
+		if seen[x] {
+			return false
+		}
+		seen[x] = true
+		if len(x.Succs) == 0 {
+			return true
+		}
+		for _, s := range x.Succs {
+			if !rec(s) {
+				return false
+			}
+		}
+		return true
+	}
+	return rec(b)
+}
+
+// cycleAvoiding: a cycle of fn's control flow graph that does not pass any block of avoid (nil if none).
+func cycleAvoiding(fn *ssa.Function, avoid blockSet, cut map[edge]bool) []*ssa.BasicBlock {
+	state := map[*ssa.BasicBlock]int{}
+	var found []*ssa.BasicBlock
+	var dfs func(b *ssa.BasicBlock) bool
+	dfs = func(b *ssa.BasicBlock) bool {
+		state[b] = 1
+		for _, s := range b.Succs {
+			if avoid[s] || cut[edge{b, s}] {
+				continue
+			}
+			if state[s] == 1 {
+				found = []*ssa.BasicBlock{s, b}
+				return true
+			}
+			if state[s] == 0 && dfs(s) {
+				return true
+			}
+		}
+		state[b] = 2
+		return false
+	}
+	for _, b := range fn.Blocks {
+		if !avoid[b] && state[b] == 0 && dfs(b) {
+			return found
+		}
+	}
+	return nil
+}
+
+// ---- LM-QUERY (known findings on the current tree: the exported QueryRule cannot report errors)
+
+func ruleLMQuery(p *Prog, r *Reporter) {
+	globalP = p
+	ai := p.applyImpl()
+	if ai == nil {
+		r.Dunno("?", "datalog.Rule.Apply", "method", "not found")
+		return
+	}
+	_, ms := authorizerImpl(p)
+	reach := p.CG().Reach(ms...)
+	for _, fn := range sortedFuncs(p, reach) {
+		if p.pkgShort(fn) != "datalog" && p.pkgShort(fn) != "biscuit" {
+			continue
+		}
+		if fn == ai.api || fn == ai.fn {
+			continue
+		}
+		for _, c := range callsIn(fn) {
+			if _, _, _, isA := ai.applyCall(c); !isA {
+				continue
+			}
+			name := p.FuncName(fn)
+			// bounded: called with a cancellation channel (the deadline), inside a worker with iteration and fact limits
+			bounded := false
+			for _, a := range c.Common().Args {
+				if dc, isC := unwrap(a).(*ssa.Call); isC && dc.Call.IsInvoke() && dc.Call.Method.Name() == "Done" {
+					bounded = true
+				}
+			}
+			r.Check(bounded, p.instrPos(c), name, "rule application bounded", "applied under the world's deadline", "a rule is applied on behalf of the authorizer without any limit: checks, policies and queries are evaluated by "+name+", which ignores the configured duration (a token check with a wide join keeps Authorize busy for hours although a limit was set)")
+			// error: tested and propagated
+			cv, isV := c.(*ssa.Call)
+			used := false
+			if isV && cv.Referrers() != nil {
+				for _, ref := range *cv.Referrers() {
+					switch ref.(type) {
+					case *ssa.BinOp, *ssa.Return, *ssa.Send, *ssa.Store, *ssa.MakeInterface, *ssa.Phi:
+						used = true
+					}
+				}
+			}
+			r.Check(used, p.instrPos(c), name, "rule application error", "the error of the application reaches the caller", "the error of applying the rule is discarded: when an expression cannot be evaluated for one combination the enumeration stops there and "+name+" returns the facts found so far as if they were all - the answer depends on the order of the facts, and a check can pass although its evaluation failed")
+		}
+	}
+}
+
+// ---- BLD-PURE
+
+func ruleBldPure(p *Prog, r *Reporter) {
+	globalP = p
+	o := p.own()
+	for _, recv := range []string{"builderOptions", "blockBuilder"} {
+		fn := p.Func("biscuit", recv, "Build")
+		if fn == nil {
+			r.Dunno("?", "biscuit."+recv+".Build", "method", "not found")
+			continue
+		}
+		name := p.FuncName(fn)
+		self := fn.Params[0]
+		bad := ""
+		for _, fs := range fieldStoresVia(fn, self) {
+			bad = "assigns " + self.Name() + "." + fs.field
+		}
+		for _, c := range callsIn(fn) {
+			args := callArgs(c.Common())
+			for _, callee := range p.CG().Callees(c) {
+				for ai, a := range args {
+					why, mut := o.mutates[callee][ai]
+					if !mut {
+						continue
+					}
+					if og := o.origin(a); og.kind != oNone && og.kind != oLocal && og.root == ssa.Value(self) {
+						bad = "passes " + shortD(a) + " to " + calleeName(callee) + ", which modifies it (" + why + ")"
+					}
+				}
+			}
+		}
+		r.Check(bad == "", p.Pos(fn.Pos()), name, "builder unchanged", "Build reads the builder and changes nothing in it", "Build modifies its builder ("+bad+"): the builder's symbol table no longer matches the facts, rules and checks it still holds, so adding to it or building from it again signs content whose symbols are wrong or declared nowhere")
+	}
+}
+
+// ---- PN-STDOUT
+
+func rulePNStdout(p *Prog, r *Reporter) {
+	globalP = p
+	n := 0
+	for _, fn := range p.funcsIn("biscuit", "datalog", "parser") {
+		for _, c := range callsIn(fn) {
+			n++
+			bad := ""
+			if f := c.Common().StaticCallee(); f != nil {
+				switch calleeName(f) {
+				case "fmt.Print", "fmt.Printf", "fmt.Println", "log.Print", "log.Printf", "log.Println", "log.Fatal", "log.Fatalf", "log.Panic", "log.Panicf":
+					bad = calleeName(f)
+				}
+			}
+			if bi, isB := c.Common().Value.(*ssa.Builtin); isB && (bi.Name() == "print" || bi.Name() == "println") {
+				bad = bi.Name()
+			}
+			if bad != "" {
+				r.Bad(p.instrPos(c), p.FuncName(fn), "write to the process output", "library code calls "+bad+": content of a token is written to the host program's standard output / error, and a closed output pipe turns the write into a fatal signal on a library goroutine")
+			}
+		}
+		for _, b := range fn.Blocks {
+			for _, in := range b.Instrs {
+				if u, ok := in.(*ssa.UnOp); ok && u.Op == token.MUL {
+					if g, isG := u.X.(*ssa.Global); isG && g.Pkg != nil && g.Pkg.Pkg.Path() == "os" && (g.Name() == "Stdout" || g.Name() == "Stderr") {
+						r.Bad(p.instrPos(u), p.FuncName(fn), "use of os."+g.Name(), "library code writes to the process's standard streams")
+					}
+				}
+			}
+		}
+	}
+	r.Check(n > 100, "?", "biscuit,datalog,parser", "calls inspected", fmt.Sprintf("%d calls inspected", n), "too few calls inspected")
+}
+
+// ---- EX-DATECONV
+
+func ruleEXDateConv(p *Prog, r *Reporter) {
+	globalP = p
+	n := 0
+	for _, fn := range p.funcsIn("biscuit", "datalog", "parser") {
+		for _, b := range fn.Blocks {
+			for _, in := range b.Instrs {
+				cv, ok := in.(*ssa.Convert)
+				if !ok {
+					continue
+				}
+				// int64 -> unsigned date of a value that comes from time.Time.Unix()
+				dst, isB := cv.Type().Underlying().(*types.Basic)
+				if !isB || dst.Info()&types.IsUnsigned == 0 {
+					continue
+				}
+				uc, isC := unwrap(cv.X).(*ssa.Call)
+				if !isC || !isCallTo(&uc.Call, "time.Time.Unix") {
+					continue
+				}
+				n++
+				okG := false
+				for _, g := range guardsOf(b) {
+					bo, isBo := g.cond.(*ssa.BinOp)
+					if !isBo {
+						continue
+					}
+					if k, isK := constInt(bo.Y); isK && k == 0 && p.D(bo.X) == p.D(uc) && ((bo.Op == token.LSS && !g.val) || (bo.Op == token.GEQ && g.val)) {
+						okG = true
+					}
+				}
+				r.Check(okG, p.instrPos(cv), p.FuncName(fn), "seconds to unsigned date", "converted only after a test that the instant is not before the epoch", "a signed number of seconds is converted to the unsigned date without a range test: an instant before 1970 (the zero time.Time included) wraps to about 2^64 and is ordered after every later date")
+			}
+		}
+	}
+	// the parser reports such literals, the encoder refuses wrapped dates
+	okParse := false
+	for _, fn := range p.funcsIn("parser") {
+		for _, c := range callsIn(fn) {
+			if !isCallTo(c.Common(), "time.Time.Unix") {
+				continue
+			}
+			cv := c.(*ssa.Call)
+			for _, nb := range cmpTests(cv) {
+				if onlyErrorReturnsFrom(nb) {
+					okParse = true
+				}
+			}
+		}
+	}
+	r.Check(okParse, "parser/grammar.go", "parser", "date literal before the epoch", "reported as an error", "the parser accepts a date literal before the UNIX epoch, which the unsigned date type cannot represent: it is silently read as a date about 5.8e11 years in the future")
+	okEnc := false
+	if enc := p.Func("biscuit", "", "tokenIDToProtoIDV2"); enc != nil {
+		for _, b := range enc.Blocks {
+			if iff := blockIf(b); iff != nil {
+				if bo, isB := iff.Cond.(*ssa.BinOp); isB && bo.Op == token.GTR {
+					if k, isK := bo.Y.(*ssa.Const); isK && k.Value != nil && k.Value.String() == "9223372036854775807" && onlyErrorReturnsFrom(b.Succs[0]) {
+						okEnc = true
+					}
+				}
+			}
+		}
+	}
+	r.Check(okEnc, "converters_v2.go", "biscuit.tokenIDToProtoIDV2", "wrapped date on the wire", "a date above MaxInt64 (a wrapped instant before the epoch) is refused", "the encoder writes a wrapped date to the wire: the token says a different date than the caller supplied")
+	_ = n
+}
+
+// cmpTests: blocks entered when the call result v compares < 0.
+func cmpTests(v *ssa.Call) []*ssa.BasicBlock {
+	var out []*ssa.BasicBlock
+	if v.Referrers() == nil {
+		return nil
+	}
+	for _, ref := range *v.Referrers() {
+		bo, ok := ref.(*ssa.BinOp)
+		if !ok || bo.Referrers() == nil {
+			continue
+		}
+		k, isK := constInt(bo.Y)
+		if !isK || k != 0 || bo.Op != token.LSS {
+			continue
+		}
+		for _, r2 := range *bo.Referrers() {
+			if iff, isIf := r2.(*ssa.If); isIf {
+				out = append(out, iff.Block().Succs[0])
+			}
+		}
+	}
+	return out
 }
